@@ -579,6 +579,13 @@ func (ex *Exec) evalDesig(env *Env, d *Desig) []assignLoc {
 			env.fail(d.P, "field(): bad argument %s", raw)
 		case "global":
 			if id, ok := e.Args[0].(*EIdent); ok {
+				if g, ok := u.ghostGlobals[id.Name]; ok {
+					gs, gt, err := u.specSort(g.Type)
+					if err != nil {
+						env.fail(d.P, "%v", err)
+					}
+					return []assignLoc{{key: "global:$" + id.Name, ref: IntLit(0), text: d.Text, sort: gs, typ: gt}}
+				}
 				if obj, ok := u.tpkg.Scope().Lookup(id.Name).(*types.Var); ok {
 					return []assignLoc{{key: "global:" + id.Name, ref: IntLit(0), text: d.Text, sort: u.sortOf(obj.Type()), typ: obj.Type()}}
 				}
@@ -755,7 +762,8 @@ func (ex *Exec) enterBlock(st *State, fr *Frame) bool {
 			}
 		}
 	}
-	ex.havocHeap(st, fmt.Sprintf("loop%d", li.Ordinal), fc.assignSet, fc.assignAll, true)
+	lh := ex.havocHeap(st, fmt.Sprintf("loop%d", li.Ordinal), fc.assignSet, fc.assignAll, true)
+	lh.freshFrom = fc.entryAlloc
 	for _, t := range evalInv() {
 		st.assume(t)
 	}
